@@ -62,6 +62,7 @@ inductive Label
   -- expect
   | expectBegin (x : Nat) (b : BId) (key : Key) (k : HId) (pred : Nat) (timeout : Nat)
   | expectEnd (x : Nat) (got : Option EId)
+  | expectCancel (x : Nat)
   deriving Repr, Inhabited
 
 abbrev Checks := List (String × Bool)
@@ -192,8 +193,8 @@ def checks (w : World) : Label → Checks
         match p with
         | .rl b' => b' == b && (w.bus b).rl == .polling     -- also after stop(): the pending get() still takes a queued item
         | .inst i => isAwaiting (w.inst i).st && (w.act (.inst i)).isNone && (w.inst i).took.isNone &&
-                     (match awaitedOf (w.inst i).st with | some c => !(w.ev c).signal | none => false) &&
-                     !(w.bus b).removed
+                     (match awaitedOf (w.inst i).st with | some c => !(w.ev c).signal | none => false)
+                     -- (a bus removed by stop(clear=True) may still be visited: the polling pass iterates a copy of all_instances)
         | .ext => false)]
   | .peBegin p b e =>
     [("peBegin: executor already has an open activation", (w.act p).isNone),
@@ -297,7 +298,7 @@ def checks (w : World) : Label → Checks
   | .readBus i got =>
     [("readBus: unknown instance", i < w.ni),
      ("readBus: body is not executing", (w.inst i).st == .running),
-     ("readBus: event_bus is the last bus of the event's path", got == (w.ev (w.inst i).ev).path.getLast?)]
+     ("readBus: event_bus of the handled event is the bus running the handler", got == some (w.inst i).bus)]
   | .rlWake b =>
     [("rlWake: run loop has no event in hand or already resumed",
         (match (w.bus b).rl with | .took _ => true | _ => false) && !(w.bus b).woke)]
@@ -354,6 +355,8 @@ def checks (w : World) : Label → Checks
         match w.waiter x with
         | .expecting _ _ _ d g => g == got && (got.isSome || (d != 0 && d ≤ w.now))
         | _ => false)]
+  | .expectCancel x =>
+    [("expectCancel: task is not blocked in expect()", match w.waiter x with | .expecting .. => true | _ => false)]
 
 /-- the run loop leaves `step()`: back to the loop head (or out of the loop when the bus was stopped meanwhile) -/
 def rlBack (w : World) (b : BId) : World :=
@@ -543,7 +546,7 @@ def apply0 (w : World) : Label → World
     (w.modBus b fun B => { B with handlers := B.handlers ++ [{ key := key, hid := k, kind := .expect x pred }],
                                   everRegs := B.everRegs ++ [{ key := key, hid := k, kind := .expect x pred }] }).setWaiter x
       (.expecting b key k (if to == 0 then 0 else w.now + to) none)
-  | .expectEnd x _ =>
+  | .expectEnd x _ | .expectCancel x =>
     (match w.waiter x with
      | .expecting b key k _ _ =>
        (w.modBus b fun B => { B with handlers := B.handlers.eraseP fun r => r.key == key && r.hid == k }).setWaiter x .idle
